@@ -9,6 +9,7 @@ import (
 var propRunners = map[string]func(c *Checker){
 	"C01": runC01,
 	"C04": runC04,
+	"C13": runC13,
 }
 
 func runProperty(P *Program, prop, tier, evid string) int {
